@@ -2,14 +2,15 @@
 # Mint the test PKI for the C17 check with the openssl CLI (no network). Idempotent.
 set -e
 cd "$(dirname "$0")"
-[ -f ca.pem ] && [ -f good.pem ] && [ -f wrongname.pem ] && [ -f untrusted.pem ] && [ -f selfsigned.pem ] && exit 0
+[ -f ca.pem ] && [ -f good.pem ] && [ -f wrongname.pem ] && [ -f untrusted.pem ] && [ -f selfsigned.pem ] && [ -f iponly.pem ] && exit 0
 D=3650
 q() { "$@" >/dev/null 2>&1; }
 # trusted CA
-q openssl req -x509 -newkey rsa:2048 -nodes -keyout ca.key -out ca.pem -days $D -subj "/CN=vh test CA" -addext "basicConstraints=critical,CA:TRUE" -addext "keyUsage=critical,keyCertSign,cRLSign"
+[ -f ca.pem ] || q openssl req -x509 -newkey rsa:2048 -nodes -keyout ca.key -out ca.pem -days $D -subj "/CN=vh test CA" -addext "basicConstraints=critical,CA:TRUE" -addext "keyUsage=critical,keyCertSign,cRLSign"
 # a second CA nobody trusts
-q openssl req -x509 -newkey rsa:2048 -nodes -keyout ca2.key -out ca2.pem -days $D -subj "/CN=vh untrusted CA" -addext "basicConstraints=critical,CA:TRUE" -addext "keyUsage=critical,keyCertSign,cRLSign"
+[ -f ca2.pem ] || q openssl req -x509 -newkey rsa:2048 -nodes -keyout ca2.key -out ca2.pem -days $D -subj "/CN=vh untrusted CA" -addext "basicConstraints=critical,CA:TRUE" -addext "keyUsage=critical,keyCertSign,cRLSign"
 leaf() { # name subject san cakey capem
+  [ -f $1.pem ] && return 0
   q openssl req -newkey rsa:2048 -nodes -keyout $1.key -out $1.csr -subj "$2"
   printf "subjectAltName=$3\nbasicConstraints=CA:FALSE\nkeyUsage=digitalSignature,keyEncipherment\nextendedKeyUsage=serverAuth\n" > $1.ext
   q openssl x509 -req -in $1.csr -CA $5 -CAkey $4 -CAcreateserial -out $1.pem -days $D -extfile $1.ext
@@ -19,7 +20,9 @@ leaf() { # name subject san cakey capem
 leaf good "/CN=localhost" "DNS:localhost,IP:127.0.0.1" ca.key ca.pem
 leaf wrongname "/CN=other.example.org" "DNS:other.example.org,IP:10.9.8.7" ca.key ca.pem
 leaf untrusted "/CN=localhost" "DNS:localhost,IP:127.0.0.1" ca2.key ca2.pem
-q openssl req -x509 -newkey rsa:2048 -nodes -keyout selfsigned.key -out selfsigned.pem -days $D -subj "/CN=localhost" -addext "subjectAltName=DNS:localhost,IP:127.0.0.1"
+# trusted, but valid for the loopback IP address only (not for the name localhost)
+leaf iponly "/CN=ip-only" "IP:127.0.0.1" ca.key ca.pem
+[ -f selfsigned.pem ] || q openssl req -x509 -newkey rsa:2048 -nodes -keyout selfsigned.key -out selfsigned.pem -days $D -subj "/CN=localhost" -addext "subjectAltName=DNS:localhost,IP:127.0.0.1"
 q openssl pkcs8 -topk8 -nocrypt -in selfsigned.key -out selfsigned.p8
 rm -f *.srl
 echo "certs generated"
